@@ -62,8 +62,15 @@ func (g *truth) record(o *op, err error, res *caseResult) {
 			g.acceptedRows += int64(b.N)
 			res.Stats["rows_accepted"] += int64(b.N)
 			res.Stats["writes_accepted_"+o.API]++
+			if b.Swap {
+				res.Stats["typeswap_batches_accepted"]++
+				res.Stats["typeswap_rows_accepted"] += int64(b.N)
+			}
 		case stRejected:
 			res.Stats["rows_in_rejected_writes"] += int64(b.N)
+			if b.Swap {
+				res.Stats["typeswap_batches_rejected"]++
+			}
 		default:
 			res.Stats["rows_in_partially_failed_multi_record_writes"] += int64(b.N)
 		}
@@ -219,6 +226,7 @@ func compare(s *caseSpec, gt *truth, root string, res *caseResult) {
 		batchesInFile := map[string]bool{}
 		writersInFile := map[int]bool{}
 		hours := map[string]bool{}
+		swapInFile := false
 		for ri, row := range f.Rows {
 			tv, tok := row["time"].(int64)
 			if !tok {
@@ -247,6 +255,10 @@ func compare(s *caseSpec, gt *truth, root string, res *caseResult) {
 			}
 			res.Stats["rows_compared"]++
 			b := ref.b
+			if b.Swap {
+				res.Stats["typeswap_rows_compared"]++
+				swapInFile = true
+			}
 			want := b.Times[ref.i]
 			batchesInFile[fmt.Sprintf("%d:%d", b.Writer, b.Seq)] = true
 			writersInFile[b.Writer] = true
@@ -300,6 +312,9 @@ func compare(s *caseSpec, gt *truth, root string, res *caseResult) {
 		}
 		if len(writersInFile) > 1 {
 			res.Stats["files_with_rows_from_several_writers"]++
+		}
+		if swapInFile {
+			res.Stats["typeswap_files_read"]++
 		}
 		if f.NumRow >= 4096 {
 			res.Stats["files_with_4096_or_more_rows"]++
